@@ -263,6 +263,30 @@ def run_cf_in(spec, res, d, h):
             calendar=cal, unit=spec['unit'], bounds=spec['bounds'])
         return
     if cal in (None, 'standard', 'gregorian', 'proleptic_gregorian') and \
+            all(1583 <= t[0] <= 9999 for t in exp):
+        # the same instants asked for as numpy datetime64 (the datetype
+        # keyword): numpy has no time zones, the values are UTC
+        try:
+            g64 = np.atleast_1d(f.getTimes(datetype='datetime64[us]',
+                                           bounds=bounds))
+            res.hook('getTimes.return')
+            w64 = np.array([np.datetime64(datetime.datetime(*t), 'us')
+                            for t in exp])
+            if g64.shape != w64.shape or not (
+                    g64.astype('datetime64[us]') == w64).all():
+                j = int(np.argmax(g64.astype('datetime64[us]') != w64)) \
+                    if g64.shape == w64.shape else 0
+                res.viol('wrong-instant:cf:standard',
+                         "units %r: getTimes(datetype='datetime64[us]') "
+                         'gives %s for value %r, the instant is %s (UTC)'
+                         % (units, g64[j] if j < len(g64) else None,
+                            tovals[j] if j < len(tovals) else None, w64[j]),
+                         calendar=cal, unit=spec['unit'],
+                         bounds=spec['bounds'])
+                return
+        except Exception as e:
+            res.note('getTimes-datetype-raised:%s' % type(e).__name__)
+    if cal in (None, 'standard', 'gregorian', 'proleptic_gregorian') and \
             not spec.get('disk'):
         # the module-level decoder (used by the dump, the evaluation and the
         # ARL writer); it knows the standard calendar only
